@@ -34,6 +34,15 @@ CHECKS = {
              "stages handed over in training mode; every forward records (training, grad-enabled); mismatched args must raise; inputs "
              "compared with clones. The whole (n, b) grid (940 pairs x 2 model kinds) is enumerated in both tiers.",
         note="BatchNorm uses eps=0 and power-of-four running variances so eval-mode arithmetic is exact for any batching; device is cpu."),
+    "C04": dict(
+        technique="property-based testing (Hypothesis) over generated network architectures: algebraic completeness law checked against independent forward passes of a pristine copy",
+        category="exploration", design_ref="DESIGN.md §3 C04",
+        text="Random sequential networks (Conv1d with stride/dilation/padding, 16 element-wise activations, AvgPool1d, MaxPool1d with "
+             "default/smaller stride, padding and ceil_mode, Flatten, Linear) with float64 weights, random one-hot inputs, explicit or "
+             "generated references, targets, n_shuffles and batch sizes; the processed attributions must sum to f(x)[t] - mean f(ref)[t] and "
+             "the raw multipliers must satisfy sum((x-ref)*m) = f(x)[t]-f(ref)[t] per pair (1e-6 relative), with no convergence warning.",
+        note="Forward passes of a deep copy taken before the call are the reference; a case is non-trivial only if the plain gradient "
+             "of the same model violates the relation. GLU/Softmax (not element-wise) are outside the stated domain."),
     "C08": dict(
         technique="property-based testing (Hypothesis): differential against explicit per-index loops, with an echo func that encodes the (X, args) it received and predict on an exact-integer model",
         category="exploration", design_ref="DESIGN.md §3 C08",
